@@ -1,7 +1,7 @@
 (* ===== C16 : linear-constraint specifications compile to the affine map they express ===== *)
 From Coq Require Import List NArith ZArith QArith Qcanon Bool Arith.
 Import ListNotations.
-Require Import GenOps Tok Cons ConsLaws GenTie ConsRows.
+Require Import GenOps Tok Cons ConsLaws GenTie ConsRows ConsEnd.
 Open Scope Qc_scope.
 
 (* the constraint operator table of the model is the one /repo defines now *)
@@ -48,6 +48,20 @@ Theorem C16_matrix_loop_is_rows_of : forall vars cs acc rows,
   exists tail, rows_of vars cs = inl tail /\ rows = rev acc ++ tail.
 Proof. exact rows_loop. Qed.
 
+(* end to end: the row A_i and constant b_i compiled from a constraint expression satisfy  A_i.x - b_i = (the expression's value at x)
+   for every x -- the composition of C16_expression_sound and C16_row_sound, with no side condition left on the factor set *)
+Theorem C16_compiled_row_is_the_expression : forall fuel a c vars row b, NoDup vars -> eval fuel a = inl (VSet c) -> row_of vars c = inl (row, b) ->
+  forall x, dot row (map x vars) - b = aeval x a.
+Proof. exact compiled_row_is_the_expression. Qed.
+(* non-vacuity: 2a - b - 3 over the columns a, b, c is the row (2, -1, 0) with constant 3; a constraint on an unknown column is rejected *)
+Example C16_example :
+  row_of [[97]; [98]; [99]]%N [(Some [97]%N, Q2Qc 2); (Some [98]%N, Q2Qc (-1)); (None, Q2Qc (-3))] = inl ([Q2Qc 2; Q2Qc (-1); Q2Qc 0], Q2Qc 3) /\
+  add_terms [(Some [97]%N, Q2Qc 2)] [(Some [97]%N, Q2Qc 1); (None, Q2Qc 5)] = [(Some [97]%N, Q2Qc 3); (None, Q2Qc 5)] /\
+  row_of [[97]]%N [(Some [98]%N, Q2Qc 2)] = inr 6%nat.
+Proof. vm_compute. auto. Qed.
+
+Print Assumptions C16_compiled_row_is_the_expression.
+Print Assumptions C16_example.
 Print Assumptions C16_comma_list_keeps_order.
 Print Assumptions C16_one_row_per_constraint_in_order.
 Print Assumptions C16_matrix_loop_is_rows_of.
